@@ -22,7 +22,7 @@ import vlib  # noqa: E402
 import retry_family as rf  # noqa: E402
 
 PID = "C10"
-OPS = "012sug"
+OPS = "012sugx"
 
 
 def wire_scenarios(tier, rng):
@@ -165,7 +165,7 @@ def run(tier):
         "states": r.states, "transitions": r.generated, "traces_validated_against_impl": len(results),
         "wire_runs": len(results), "race_detector_runs": race_runs, "race_reports": races,
         "evaluations": len(results) + race_runs, "distinct_nontrivial": len({json.dumps(s["callers"]) for s in scs}),
-        "rule": "3-8 concurrent callers with 2-5 operations each over {publish q0, publish q1, subscribe, unsubscribe, ping}, 0-4 inbound QoS1+QoS2 messages, chunk size 1-3, optional concurrent Err/Done/Stats readers; the race detector runs the same compositions and reconnect scenarios with Handle/sample calls",
+        "rule": "3-8 concurrent callers with 2-5 operations each over {publish q0, publish q1, publish q2, subscribe, unsubscribe, ping}, 0-4 inbound QoS1+QoS2 messages, chunk size 1-3, optional concurrent Err/Done/Stats/Handle callers; acknowledgement bursts and abandoned requests (C07 scripts) under the race detector; the race detector runs the same compositions and reconnect scenarios with Handle/sample calls",
         "samples": [{"scenario": scs[0], "bytes_received": len(results[0]["stream"]) if results else 0}], "exhaustive": False,
         "memory_half": "auxiliary: Go race detector, not decidable by the TLA+ model (DESIGN.md section 9)",
     }, time.time() - t0, ["the chunking transport completes every Write (no short writes: BaseClient.write does not support them)",
